@@ -2,7 +2,7 @@
    and the three statements dec_out_sound, dec_out_ignores_nongrammar, press_is_down_then_up. *)
 From RP Require Import Lib.Base Lib.Sexp Lib.Strings Lib.Utf8 Lib.TrimSpace Lib.FloatFmt Model.MsgOut Model.DecOut
   Spec.DenoteOut Spec.GrammarOut Proofs.GfxNum Proofs.OutStrings Proofs.OutDecSkel Proofs.OutDecEvent
-  Proofs.OutDecSys Proofs.OutDecKV.
+  Proofs.OutDecSys Proofs.OutDecKV Proofs.OutReader.
 From Coq Require Import String.
 Open Scope Z_scope.
 
@@ -30,15 +30,6 @@ Proof.
 Qed.
 
 (* ---------------------------------------------------------------- registers *)
-Lemma is_regid_eq c : is_regid c = is_regid_ch c.
-Proof. reflexivity. Qed.
-
-Lemma regid_no_eq id : forallb is_regid id = true -> forallb (fun x => negb (x =? 61)) id = true.
-Proof.
-  intros H. rewrite forallb_forall in *. intros x Hx. specialize (H x Hx).
-  destruct (x =? 61) eqn:E; [|reflexivity]. apply Z.eqb_eq in E. subst x. discriminate.
-Qed.
-
 Lemma re_regs_inv l : re_regs l <> [] ->
   exists kw id v, In kw reg_kws /\ l = kw ++ id ++ 61 :: v /\ forallb is_regid id = true /\
                   v <> [] /\ forallb is_digit v = true /\ re_regs l = [l; kw; id; v].
@@ -61,28 +52,6 @@ Proof.
   intros -> Hid. unfold try_register. rewrite drop_prefix_app.
   rewrite (cut_on_app 61 id v (regid_no_eq id Hid)).
   assert (E : forallb is_regid_ch id = true) by exact Hid. rewrite E. discriminate.
-Qed.
-
-(* a successful register reading, for each of the four keywords *)
-Lemma try_register_shape l kw k c :
-  try_register l kw k = Some c ->
-  exists id v, l = str kw ++ id ++ 61 :: v /\ forallb is_regid id = true /\
-    c = match read_u32 v with
-        | None => Malformed
-        | Some x =>
-          if k =? 1 then
-            match read_u32 id with
-            | Some n => WF true [RReg 1 (itoa n) (if x >? 0 then 1 else 0)]
-            | None => Malformed
-            end
-          else WF true [RReg k id x]
-        end.
-Proof.
-  unfold try_register. destruct (drop_prefix (str kw) l) as [r|] eqn:Ed; [|discriminate].
-  destruct (cut_on 61 r) as [[id v] f] eqn:Ec. destruct f; [|discriminate].
-  destruct (forallb is_regid_ch id) eqn:Ei; [|discriminate]. intros H. injection H as <-.
-  apply drop_prefix_some in Ed. destruct (cut_on_found _ _ _ _ Ec) as [Hr _]. subst r.
-  exists id, v. repeat split; auto.
 Qed.
 
 Lemma try_register_not_ng l kw k c : try_register l kw k = Some c -> c <> NonGrammar.
@@ -216,39 +185,6 @@ Proof.
 Qed.
 
 (* ---------------------------------------------------------------- the per-line theorem *)
-Definition read_rest (l : bytes) : line_class :=
-  match lookup l flow_words with
-  | Some w => WF true [RFlow w]
-  | None =>
-    match drop_prefix (str "HWC#") l with
-    | Some r => if has_lf l then Malformed else read_event r
-    | None =>
-      match drop_prefix (str "map=") l with
-      | Some r =>
-        match cut_on 58 r with
-        | (a, b, true) =>
-          match read_u32 a, read_u32 b with
-          | Some k, Some v => WF true [RMap k v]
-          | _, _ => Malformed
-          end
-        | _ => Malformed
-        end
-      | None =>
-        match cut_on 61 l with
-        | (key, v, true) =>
-          match lookup key key_table with
-          | Some vk => read_value vk v
-          | None => read_register l
-          end
-        | _ => NonGrammar
-        end
-      end
-    end
-  end.
-
-Lemma read_out_line_nonempty l : l <> [] -> read_out_line l = read_rest l.
-Proof. destruct l; [congruence|reflexivity]. Qed.
-
 Theorem dec_line_sound l :
   line_judgeable l = true ->
   exists om, dec_out_line np l = Ok om /\ den_om om = sem_out_line l.
